@@ -11,6 +11,7 @@ use crate::gen::{self, FnGenCfg, ModItemKind};
 use crate::tape::Tape;
 use proc_macro2::{Delimiter, TokenStream, TokenTree};
 use quote::ToTokens;
+use crate::tok;
 use serde_json::{json, Value};
 
 pub struct Case {
@@ -21,12 +22,34 @@ pub struct Case {
     pub trait_vis: String,
     pub expected: Vec<String>,
     pub nontrivial: bool,
+    /// `<attrs> <vis> mod <name>` and the module's items one by one (for `wrapped`)
+    pub mod_header: String,
+    pub items: Vec<String>,
+    /// indices of items that reach the macro as `macro_rules!` `$i:item` fragments: one group with invisible delimiters each
+    pub wrapped: Vec<usize>,
 }
 
 impl Case {
     pub fn json(&self) -> Value {
         json!({"engine": "E1", "macro": self.macro_name, "attr": self.attr, "item": self.item,
-               "trait_name": self.trait_name, "trait_vis": self.trait_vis, "expected_methods": self.expected})
+               "trait_name": self.trait_name, "trait_vis": self.trait_vis, "expected_methods": self.expected,
+               "mod_header": self.mod_header, "items": self.items, "wrapped": self.wrapped})
+    }
+
+    /// the module as a token stream, with the `wrapped` items inside invisible groups
+    pub fn item_stream(&self) -> Result<TokenStream, String> {
+        let mut body = TokenStream::new();
+        for (i, it) in self.items.iter().enumerate() {
+            let ts = tok::parse_src(it).map_err(|e| format!("HARNESS: {e}"))?;
+            if self.wrapped.contains(&i) {
+                body.extend(std::iter::once(TokenTree::Group(proc_macro2::Group::new(Delimiter::None, ts))));
+            } else {
+                body.extend(ts);
+            }
+        }
+        let mut out = tok::parse_src(&self.mod_header).map_err(|e| format!("HARNESS: {e}"))?;
+        out.extend(std::iter::once(TokenTree::Group(proc_macro2::Group::new(Delimiter::Brace, body))));
+        Ok(out)
     }
 }
 
@@ -60,7 +83,16 @@ pub fn gen_case(t: &mut Tape) -> Case {
     let mod_name = *t.pick(&["the_mod", "the_mod", "m", "r#match", "r#type", "r#plain", "Mod9", "_m"]);
     let item = format!("{mod_attrs} {mod_vis} mod {mod_name} {{\n{}\n}}", items.join("\n"));
     let nontrivial = !expected.is_empty() && decoys > 0;
-    Case { macro_name, attr, item, trait_name, trait_vis, expected, nontrivial }
+    // some items arrive as `$i:item` fragments (only items that are exactly one item can)
+    let mut wrapped = vec![];
+    if t.chance(1, 5) {
+        for (i, it) in items.iter().enumerate() {
+            if t.chance(1, 2) && syn::parse_str::<syn::File>(it).map(|f| f.items.len() == 1).unwrap_or(false) {
+                wrapped.push(i);
+            }
+        }
+    }
+    Case { macro_name, attr, item, trait_name, trait_vis, expected, nontrivial, mod_header: format!("{mod_attrs} {mod_vis} mod {mod_name}"), items, wrapped }
 }
 
 fn find_module_body(ts: &TokenStream) -> Option<(TokenStream, TokenStream)> {
@@ -104,8 +136,20 @@ fn find_trait(body: &TokenStream, name: &str) -> Option<syn::ItemTrait> {
 }
 
 pub fn check(c: &Case) -> Result<&'static str, String> {
-    let out = match e1::outcome(&c.macro_name, &c.attr, &c.item).map_err(|e| format!("HARNESS: {e}"))? {
+    let outcome = if c.wrapped.is_empty() {
+        e1::outcome(&c.macro_name, &c.attr, &c.item).map_err(|e| format!("HARNESS: {e}"))?
+    } else {
+        e1::outcome_ts(&c.macro_name, tok::parse_src(&c.attr).map_err(|e| format!("HARNESS: {e}"))?, c.item_stream()?)
+    };
+    let out = match outcome {
         Outcome::Accepted(_, ts) => ts,
+        // a module is accepted or rejected for what its items are, not for how they were handed over
+        Outcome::Rejected(m) if !c.wrapped.is_empty() => {
+            return match e1::outcome(&c.macro_name, &c.attr, &c.item).map_err(|e| format!("HARNESS: {e}"))? {
+                Outcome::Accepted(..) => Err(format!("the module is rejected (`{m}`) when items {:?} arrive as `$i:item` fragments, and accepted when they are written out", c.wrapped)),
+                _ => Ok("rejected"),
+            };
+        }
         Outcome::Rejected(_) => return Ok("rejected"),
         Outcome::Panic(_) => return Ok("panic"),
     };
@@ -213,7 +257,10 @@ pub fn replay(ctx: &mut Ctx, v: &Value) {
         return;
     }
     let expected = v.get("expected_methods").and_then(|a| a.as_array()).map(|a| a.iter().filter_map(|x| x.as_str().map(String::from)).collect()).unwrap_or_default();
-    let c = Case { macro_name: s(v, "macro"), attr: s(v, "attr"), item: s(v, "item"), trait_name: s(v, "trait_name"), trait_vis: s(v, "trait_vis"), expected, nontrivial: true };
+    let c = Case { macro_name: s(v, "macro"), attr: s(v, "attr"), item: s(v, "item"), trait_name: s(v, "trait_name"), trait_vis: s(v, "trait_vis"), expected, nontrivial: true,
+        mod_header: s(v, "mod_header"),
+        items: v.get("items").and_then(|a| a.as_array()).map(|a| a.iter().filter_map(|x| x.as_str().map(String::from)).collect()).unwrap_or_default(),
+        wrapped: v.get("wrapped").and_then(|a| a.as_array()).map(|a| a.iter().filter_map(|x| x.as_u64().map(|n| n as usize)).collect()).unwrap_or_default() };
     ctx.count_eval();
     match check(&c) {
         Ok(_) => {}
@@ -238,6 +285,8 @@ fn e2_module(t: &mut Tape) -> E2Mod {
     let mut items = vec![];
     let mut expected = vec![];
     let mut not_methods = vec![];
+    // items that are exactly one item (they can be handed through `macro_rules!` as an `$i:item` fragment)
+    let mut single: Vec<usize> = vec![];
     for i in 0..n {
         match t.weighted(&[5, 2, 5]) {
             0 => {
@@ -247,6 +296,7 @@ fn e2_module(t: &mut Tape) -> E2Mod {
                 expected.push((format!("vis{i}"), q.to_string()));
             }
             1 => {
+                single.push(items.len());
                 items.push(format!("    fn priv{i}(_deps: &impl ::core::any::Any) -> u32 {{ {} }}", 200 + i));
                 not_methods.push(format!("priv{i}"));
             }
@@ -268,14 +318,38 @@ fn e2_module(t: &mut Tape) -> E2Mod {
                         not_methods.push(format!("{nm}{i}"));
                     }
                 }
+                if matches!(k, 0 | 2 | 3 | 5 | 6 | 7 | 8) {
+                    single.push(items.len());
+                }
                 items.push(decoys[k].clone());
             }
         }
     }
     let tvis = ["", "pub ", "pub(crate) "][t.choose(3)];
     let mod_name = *t.pick(&["m", "m", "r#match", "r#type", "r#plain", "Mod9"]);
-    let src = format!("#[::entrait::entrait({tvis}TheTrait)]\n{}mod {mod_name} {{\n{}\n}}\n", ["", "pub ", "pub(crate) "][t.choose(3)], items.join("\n"));
-    let summary = format!("#[entrait({tvis}TheTrait)] mod {mod_name} {{ {} }}", items.iter().map(|s| s.trim().to_string()).collect::<Vec<_>>().join(" "));
+    let mod_vis = ["", "pub ", "pub(crate) "][t.choose(3)];
+    // the module may come out of a `macro_rules!` expansion that receives one or two of its non-method items as `$i:item`
+    // fragments (they reach the attribute macro as groups with invisible delimiters)
+    let interpolate = !single.is_empty() && t.chance(1, 4);
+    let src = if interpolate {
+        let picked: Vec<usize> = single.iter().copied().take(2).collect();
+        let mut body = items.clone();
+        let mut args = vec![];
+        for (k, at) in picked.iter().enumerate() {
+            args.push(items[*at].trim().to_string());
+            body[*at] = format!("    $i{k}");
+        }
+        let params: Vec<String> = (0..picked.len()).map(|k| format!("$i{k}:item")).collect();
+        format!(
+            "macro_rules! __mk_mod {{ ({}) => {{\n#[::entrait::entrait({tvis}TheTrait)]\n{mod_vis}mod {mod_name} {{\n{}\n}}\n}} }}\n__mk_mod!({});\n",
+            params.join(", "),
+            body.join("\n"),
+            args.join(", ")
+        )
+    } else {
+        format!("#[::entrait::entrait({tvis}TheTrait)]\n{mod_vis}mod {mod_name} {{\n{}\n}}\n", items.join("\n"))
+    };
+    let summary = format!("#[entrait({tvis}TheTrait)] mod {mod_name} {{ {} }}{}", items.iter().map(|s| s.trim().to_string()).collect::<Vec<_>>().join(" "), if interpolate { " [module from macro_rules!, items handed in as $i:item fragments]" } else { "" });
     E2Mod { src, expected, not_methods, summary }
 }
 
